@@ -324,6 +324,40 @@ def rule_drop(ctx):
                     if not fl.cfg.dominates(on.id, n.id):
                         late.append((f, call))
     C.require(reporters, "no cost-reporting entry (track_flops) found")
+    # the figure is read off the processor only when the path is complete: no
+    # contracting call on the same processor follows the read within the iteration
+    contracting = {m.name for m in cp.methods.values()
+                   if "flops" in (ctx.effects.transitive(m)["write"] | ctx.effects.transitive(m)["mutate"])
+                   and m.name not in ("__init__", "copy")}
+    n_reads = 0
+    for f in reporters:
+        fl = ctx.flow(f)
+        parents = f.module.parents
+        for st in walk_local(f.node):
+            if not (isinstance(st, ast.Assign) and isinstance(st.value, ast.Attribute)
+                    and st.value.attr == "flops" and isinstance(st.value.value, ast.Name)):
+                continue
+            recv = st.value.value.id
+            rn = fl.cfg.containing(st, parents)
+            if rn is None:
+                continue
+            n_reads += 1
+            heads = [fl.cfg.node_of(l) for l in C.enclosing_loops(f, st)]
+            heads = [h.id for h in heads if h is not None]
+            after = fl.cfg.reachable_from_succs(rn.id, avoid=heads)
+            key = ctx.key(f, "C18-DROP", "figure-read-early")
+            bad = None
+            for n, call in fl.calls():
+                if n.id in after and isinstance(call.func, ast.Attribute) and \
+                        isinstance(call.func.value, ast.Name) and call.func.value.id == recv and \
+                        call.func.attr in contracting:
+                    bad = call
+            if bad is not None:
+                r.violation(key, C.loc(f, bad), f"`{C.unparse(st)}` reads the cost before "
+                            f"{recv}.{bad.func.attr}() has performed its contractions: they are part "
+                            "of the returned path but missing from the reported (and compared) cost")
+            else:
+                r.ok(key, C.loc(f, st), "cost read after the last contracting call of the trial")
     for f, call in late:
         r.violation(ctx.key(f, "C18-DROP", "tracking-starts-late"), C.loc(f, call),
                     f"{C.unparse(call.func)}() can perform contractions that become part of the "
